@@ -122,21 +122,32 @@ type blockError struct {
 func (e *blockError) Error() string { return e.err.Error() }
 func (e *blockError) Unwrap() error { return e.err }
 
+// lineError is the error of an execution: what failed, and on which line of
+// the executed template.
+type lineError struct {
+	line int
+	err  error
+}
+
+func (e *lineError) Error() string { return fmt.Sprintf("line %d: %s", e.line, e.err) }
+func (e *lineError) Unwrap() error { return e.err }
+
 // blockErrorOf finds the failing block statement that belongs to the
-// execution exec. An error that comes out of a partial (or
-// out of another execution of the same template, when a template includes
-// itself) carries a statement of that other execution, which says nothing
-// about a line of the caller.
+// execution exec. An error that comes out of another execution - a partial,
+// or another execution of the same template when a template includes itself -
+// says nothing about a line of the caller, whatever failed in there: also a
+// block that the caller has stored and the partial replays.
 func blockErrorOf(err error, exec *execution) *blockError {
 	for err != nil {
-		var be *blockError
-		if !errors.As(err, &be) {
+		switch e := err.(type) {
+		case *blockError:
+			if e.exec == exec {
+				return e
+			}
+		case *lineError:
 			return nil
 		}
-		if be.exec == exec {
-			return be
-		}
-		err = be.err
+		err = errors.Unwrap(err)
 	}
 	return nil
 }
